@@ -328,6 +328,7 @@ func runC13(r *Run) {
 		if p != "" {
 			classify("x | f("+p+")", true)
 			classify("f("+p+")", true)
+			classify("f("+p+") | g", true) // the call at the head of a pipe
 		}
 		if len(p) == argMax {
 			return
@@ -338,6 +339,9 @@ func runC13(r *Run) {
 	}
 	recArgs("")
 	for _, e := range []string{`x | default("hasn't")`, `default('say "hi"')`, `x | join2("a'b", 'c"d')`, `f("a, b", 'c, d')`, `x | f("it's", "a|b") | g('"')`, `f('(', ")")`, `x | f(" a ", ' b')`, `f("'", '"', "','")`, `x | f("a\"b")`, `f('')`, `x | f("", '')`} {
+		classify(e, true)
+	}
+	for _, e := range []string{"f() | g", "f(a) | ", "f(a)| g | h(1)", "9f(x) | g", "a.b(x) | g", "f(x) y | g", "(x) | g", "f(x)) | g", " f( x ) | g ", "f(a | b) | c", "f(a) | g(b) | h('c')", "f(x)(y) | g", "f(x | g", "f x) | g", "if(x) | g", "f(a) || g(b)", "-f(a) | g", "f(a).b | g", "f('a|b') | g", "len(xs) | double | double"} {
 		classify(e, true)
 	}
 	c13Floats(r)
@@ -678,7 +682,9 @@ func c13Pipes(r *Run) {
 	initials := []struct {
 		path string
 		val  any
-	}{{"a", 3}, {"s", "str"}, {"num", "12"}, {"xs", []any{1, 2, 3}}, {"t", true}, {"big", 300}}
+	}{{"a", 3}, {"s", "str"}, {"num", "12"}, {"xs", []any{1, 2, 3}}, {"t", true}, {"big", 300},
+		// a call at the head of the pipe: called with its own arguments, its result piped on
+		{"double(3)", 6}, {"len(xs)", 3}, {"double(a)", 6}, {"upper('ab')", "AB"}, {"len(s)", 3}}
 	env := c13Env()
 	env["num"] = "12"
 	env["big"] = 300
